@@ -231,6 +231,8 @@ struct Ctx<'a> {
     /// E5b: end pointers: alias -> base
     ptr_end: BTreeMap<String, String>,
     tmp_n: usize,
+    /// E5 side condition: base text -> offset after the first pointer binding
+    ptr_pos: BTreeMap<String, usize>,
     /// E9b: (ordinal, body start, body end, lets, spec, body_is_block)
     hoisted: Vec<(usize, usize, usize, String, HoistSpec, bool)>,
     in_impl: bool,
@@ -543,6 +545,8 @@ impl<'a, 'ast> Visit<'ast> for Ctx<'a> {
                             let base = self.src.slice(mc.receiver.span()).to_string();
                             self.ptr_cursor.insert(id.clone(), base.clone());
                             let (a, b) = self.src.range(l.span());
+                            let e0 = *self.ptr_pos.get(&base).unwrap_or(&usize::MAX);
+                            let _ = self.ptr_pos.insert(base.clone(), e0.min(b));
                             self.add(a, b, format!("let mut {id}__i: usize = 0; /* E5b: {id} == &{base}[{id}__i] */"), "E5b pointer cursor");
                             self.site("e5_binding");
                             return;
@@ -567,6 +571,8 @@ impl<'a, 'ast> Visit<'ast> for Ctx<'a> {
                             // subst inside base is not supported
                             self.ptr_base.insert(id.clone(), base.clone());
                             let (a, b) = self.src.range(l.span());
+                            let e0 = *self.ptr_pos.get(&base).unwrap_or(&usize::MAX);
+                            let _ = self.ptr_pos.insert(base.clone(), e0.min(b));
                             self.add(a, b, format!("/* E5: {id} := &{base}[..] */"), "E5 pointer binding");
                             self.site("e5_binding");
                             return;
@@ -1002,7 +1008,7 @@ fn extract_fn(file: &syn::File, src: &Src, it: &Item) -> ItemOut {
     out.orig_start_line = src.line_of(ws);
     out.orig_end_line = src.line_of(we);
 
-    let mut cx = Ctx { src, item: it, edits: vec![], seq: 0, loops: vec![], closures: 0, sites: BTreeMap::new(), errors: vec![], anchors_found: vec![], ptr_base: BTreeMap::new(), ptr_elem: BTreeMap::new(), ptr_cursor: BTreeMap::new(), ptr_end: BTreeMap::new(), tmp_n: 0, hoisted: vec![], in_impl: false, inline_checks: vec![], anchor_occ: BTreeMap::new(), self_iter_types: vec![] };
+    let mut cx = Ctx { src, item: it, edits: vec![], seq: 0, loops: vec![], closures: 0, sites: BTreeMap::new(), errors: vec![], anchors_found: vec![], ptr_base: BTreeMap::new(), ptr_elem: BTreeMap::new(), ptr_cursor: BTreeMap::new(), ptr_end: BTreeMap::new(), tmp_n: 0, ptr_pos: BTreeMap::new(), hoisted: vec![], in_impl: false, inline_checks: vec![], anchor_occ: BTreeMap::new(), self_iter_types: vec![] };
 
     // ---- signature, rebuilt from source slices (E0, E2, E10, E11) ----
     let mut sigtxt = String::new();
@@ -1016,7 +1022,7 @@ fn extract_fn(file: &syn::File, src: &Src, it: &Item) -> ItemOut {
     // inputs: visit for subst
     let (ps, pe) = src.range(sig.paren_token.span.join());
     {
-        let mut sub = Ctx { src, item: it, edits: vec![], seq: 0, loops: vec![], closures: 0, sites: BTreeMap::new(), errors: vec![], anchors_found: vec![], ptr_base: BTreeMap::new(), ptr_elem: BTreeMap::new(), ptr_cursor: BTreeMap::new(), ptr_end: BTreeMap::new(), tmp_n: 0, hoisted: vec![], in_impl: false, inline_checks: vec![], anchor_occ: BTreeMap::new(), self_iter_types: vec![] };
+        let mut sub = Ctx { src, item: it, edits: vec![], seq: 0, loops: vec![], closures: 0, sites: BTreeMap::new(), errors: vec![], anchors_found: vec![], ptr_base: BTreeMap::new(), ptr_elem: BTreeMap::new(), ptr_cursor: BTreeMap::new(), ptr_end: BTreeMap::new(), tmp_n: 0, ptr_pos: BTreeMap::new(), hoisted: vec![], in_impl: false, inline_checks: vec![], anchor_occ: BTreeMap::new(), self_iter_types: vec![] };
         for inp in &sig.inputs { sub.visit_fn_arg(inp); }
         let mut errs = vec![];
         sigtxt.push_str(&norm(&apply_edits(src, ps, pe, sub.edits.clone(), &mut errs)));
@@ -1025,7 +1031,7 @@ fn extract_fn(file: &syn::File, src: &Src, it: &Item) -> ItemOut {
     }
     if let syn::ReturnType::Type(_, ty) = &sig.output {
         let (ts, te) = src.range(ty.span());
-        let mut sub = Ctx { src, item: it, edits: vec![], seq: 0, loops: vec![], closures: 0, sites: BTreeMap::new(), errors: vec![], anchors_found: vec![], ptr_base: BTreeMap::new(), ptr_elem: BTreeMap::new(), ptr_cursor: BTreeMap::new(), ptr_end: BTreeMap::new(), tmp_n: 0, hoisted: vec![], in_impl: false, inline_checks: vec![], anchor_occ: BTreeMap::new(), self_iter_types: vec![] };
+        let mut sub = Ctx { src, item: it, edits: vec![], seq: 0, loops: vec![], closures: 0, sites: BTreeMap::new(), errors: vec![], anchors_found: vec![], ptr_base: BTreeMap::new(), ptr_elem: BTreeMap::new(), ptr_cursor: BTreeMap::new(), ptr_end: BTreeMap::new(), tmp_n: 0, ptr_pos: BTreeMap::new(), hoisted: vec![], in_impl: false, inline_checks: vec![], anchor_occ: BTreeMap::new(), self_iter_types: vec![] };
         sub.visit_type(ty);
         let mut errs = vec![];
         let mut t = norm(&apply_edits(src, ts, te, sub.edits.clone(), &mut errs));
@@ -1083,6 +1089,27 @@ fn extract_fn(file: &syn::File, src: &Src, it: &Item) -> ItemOut {
         cx.edits.push(Edit { start: p, end: p + from.len(), text: to.clone(), rule: format!("M manual: {why}"), seq: cx.seq });
     }
     let mut literal_bodies: BTreeMap<String, String> = BTreeMap::new();
+    // E5 side condition: the Vec a pointer was taken from is not structurally modified (reallocated, shrunk, reassigned)
+    // anywhere in the function; `set_len` keeps the allocation and is allowed
+    {
+        let mut bases: Vec<String> = cx.ptr_base.values().cloned().collect();
+        bases.extend(cx.ptr_cursor.values().cloned());
+        bases.sort(); bases.dedup();
+        for base in bases {
+            // only the text AFTER the pointer was taken matters
+            let from = cx.ptr_pos.get(&base).copied().unwrap_or(bs).min(be);
+            let body_txt = norm(&src.text[from..be]);
+            let b = norm(&base);
+            for m in ["push", "pop", "clear", "resize", "truncate", "insert", "remove", "extend", "reserve", "shrink_to_fit", "append", "drain", "retain", "dedup", "swap_remove", "split_off", "push_back", "push_front", "pop_back", "pop_front"] {
+                if body_txt.contains(&format!("{b}.{m}(")) || body_txt.contains(&format!("{b} .{m}(")) {
+                    cx.errors.push(format!("E5: side condition failed: `{b}` is modified by `{m}` while a raw pointer into it is in use"));
+                }
+            }
+            if body_txt.contains(&format!("{b} = ")) && !body_txt.contains(&format!("let mut {b} = ")) && !body_txt.contains(&format!("let {b} = ")) {
+                cx.errors.push(format!("E5: side condition failed: `{b}` is reassigned while a raw pointer into it is in use"));
+            }
+        }
+    }
     for (m, ctor) in cx.inline_checks.clone() {
         // the method `m` of some impl in this file must have exactly the body `{ CTOR(self) }`
         let mut ok = false;
@@ -1193,7 +1220,7 @@ fn extract_struct(file: &syn::File, src: &Src, it: &Item) -> ItemOut {
                 out.orig_text = src.text[ws..we].to_string();
                 out.orig_start_line = src.line_of(ws);
                 out.orig_end_line = src.line_of(we);
-                let mut cx = Ctx { src, item: it, edits: vec![], seq: 0, loops: vec![], closures: 0, sites: BTreeMap::new(), errors: vec![], anchors_found: vec![], ptr_base: BTreeMap::new(), ptr_elem: BTreeMap::new(), ptr_cursor: BTreeMap::new(), ptr_end: BTreeMap::new(), tmp_n: 0, hoisted: vec![], in_impl: false, inline_checks: vec![], anchor_occ: BTreeMap::new(), self_iter_types: vec![] };
+                let mut cx = Ctx { src, item: it, edits: vec![], seq: 0, loops: vec![], closures: 0, sites: BTreeMap::new(), errors: vec![], anchors_found: vec![], ptr_base: BTreeMap::new(), ptr_elem: BTreeMap::new(), ptr_cursor: BTreeMap::new(), ptr_end: BTreeMap::new(), tmp_n: 0, ptr_pos: BTreeMap::new(), hoisted: vec![], in_impl: false, inline_checks: vec![], anchor_occ: BTreeMap::new(), self_iter_types: vec![] };
                 cx.visit_fields(&s.fields);
                 let (fs, fe) = src.range(s.fields.span());
                 let mut errs = vec![];
